@@ -1386,7 +1386,7 @@ func (interp *Interpreter) cfg(root *node, sc *scope, importPath, pkgName string
 				case n.anc.kind == returnStmt:
 					// Store result directly to frame output location, to avoid a frame copy.
 					n.findex = 0
-				case bname == "cap" && isInConstOrTypeDecl(n):
+				case bname == "cap" && (isInConstOrTypeDecl(n) || constLen(n.child[1])):
 					t := n.child[1].typ.TypeOf()
 					for t.Kind() == reflect.Ptr {
 						t = t.Elem()
@@ -1399,7 +1399,7 @@ func (interp *Interpreter) cfg(root *node, sc *scope, importPath, pkgName string
 					}
 					n.findex = notInFrame
 					n.gen = nop
-				case bname == "len" && isInConstOrTypeDecl(n):
+				case bname == "len" && (isInConstOrTypeDecl(n) || constLen(n.child[1])):
 					t := n.child[1].typ.TypeOf()
 					for t.Kind() == reflect.Ptr {
 						t = t.Elem()
@@ -3167,6 +3167,32 @@ func isInInterfaceType(n *node) bool {
 		anc = anc.anc
 	}
 	return false
+}
+
+// constLen returns true if len or cap applied to the expression n is a constant: n is a string
+// constant, or an array or pointer to array expression without channel receive or function call.
+func constLen(n *node) bool {
+	t := n.typ.TypeOf()
+	if t.Kind() == reflect.String {
+		return constOperand(n) != nil
+	}
+	if t.Kind() == reflect.Ptr {
+		t = t.Elem()
+	}
+	if t.Kind() != reflect.Array {
+		return false
+	}
+	ok := true
+	n.Walk(func(m *node) bool {
+		if m.rval.IsValid() {
+			return false // Skip constant expressions.
+		}
+		if m.kind == callExpr || m.kind == funcLit || m.action == aRecv {
+			ok = false
+		}
+		return ok
+	}, nil)
+	return ok
 }
 
 func isInConstOrTypeDecl(n *node) bool {
